@@ -19,13 +19,13 @@ func (urlTree *URLTree[T]) Traversal(url string) LookupFlowResult[T] {
 
 func lookupFlow[T any](urlTree *URLTree[T], url string) lookupFlowNodeResult[T] {
 	splitURL := splitURL(url)
-	lookUpLength := len(splitURL) - 1
 	currentNode := urlTree.Root
 	flows := []T{}
-	index := 0
+	// matchedAllParts stays true only if every part of the URL was consumed by the tree
+	matchedAllParts := true
 
 	var part urlPart
-	for index, part = range splitURL {
+	for _, part = range splitURL {
 		log.Trace().Msgf("lookupFlowNodeResult::Looking up part %v", part)
 		if currentNode.WildcardChild != nil && currentNode.WildcardChild.hasValue() {
 			flows = append(flows, *currentNode.WildcardChild.Value)
@@ -44,12 +44,13 @@ func lookupFlow[T any](urlTree *URLTree[T], url string) lookupFlowNodeResult[T] 
 			continue
 		}
 
+		matchedAllParts = false
 		break
 	}
 
-	if index == lookUpLength && currentNode.hasValue() && currentNode.WildcardChild == nil {
+	if matchedAllParts && currentNode.hasValue() && currentNode.WildcardChild == nil {
 		flows = append(flows, *currentNode.Value)
-	} else if index == lookUpLength && part.IsPartOfHost &&
+	} else if matchedAllParts && part.IsPartOfHost &&
 		currentNode.WildcardChild != nil && currentNode.WildcardChild.hasValue() {
 		// case where url is host without path and filter ends with a wildcard, for example:
 		// url: "host.com", filter: "host.com/*"
